@@ -114,7 +114,7 @@ class Fresh:
   def __init__(self, start=1):
     self.c = itertools.count(start)
 
-  def val(self, r, sig=None, allow_default=True, allow_tv=False):
+  def val(self, r, sig=None, allow_default=True, allow_tv=False, positional=False):
     x = r.random()
     if allow_default and sig and x < 0.12:
       ds = [p[0] for p in sig if p[2]]
@@ -122,7 +122,9 @@ class Fresh:
         return {'d': r.choice(ds)}
     if allow_tv and x > 0.9:
       tags = r.sample(range(len(targets.TAGS)), r.randint(1, 2))
-      return {'tv': tags, 'in': next(self.c) if r.random() < 0.7 else None}
+      # a value-less TaggedValue in a positional slot leaves a hole in *args (entries after it
+      # become unreachable); only named parameters get value-less TaggedValues
+      return {'tv': tags, 'in': next(self.c) if (positional or r.random() < 0.7) else None}
     return {'v': next(self.c)}
 
 
@@ -135,7 +137,7 @@ def gen_init(r, sig, fresh, malformed=0.1, allow_tv=False):
   npos = r.randint(0, len(pos) + (3 if has_vp else 0) + (1 if bad else 0))
   if not has_vp and not bad:
     npos = min(npos, len(pos))
-  args = [fresh.val(r, sig, allow_tv=allow_tv) for _ in range(npos)]
+  args = [fresh.val(r, sig, allow_tv=allow_tv, positional=True) for _ in range(npos)]
   kwargs = []
   for p in sig:
     if p[1] == 'pk' and pos.index(p) >= npos and r.random() < 0.5:
@@ -195,12 +197,12 @@ def gen_ops(r, sig, fresh, n_ops, with_tracking=False, allow_tv=False):
     elif x < 0.40:
       ops.append(['getslice', rand_slice(r, L, sig)])
     elif x < 0.55:
-      ops.append(['setitem', rand_index(r, L), fresh.val(r, sig, allow_tv=allow_tv)])
+      ops.append(['setitem', rand_index(r, L), fresh.val(r, sig, allow_tv=allow_tv, positional=True)])
     elif x < 0.58 and has_vp:
       ops.append(['setvar', fresh.val(r, sig)])
     elif x < 0.78:
       k = r.randint(0, 4)
-      ops.append(['setslice', rand_slice(r, L, sig), [fresh.val(r, sig, allow_tv=allow_tv) for _ in range(k)]])
+      ops.append(['setslice', rand_slice(r, L, sig), [fresh.val(r, sig, allow_tv=allow_tv, positional=True) for _ in range(k)]])
     elif x < 0.88:
       ops.append(['delitem', rand_index(r, L)])
     elif x < 0.97:
@@ -281,6 +283,14 @@ def observe(cfg, with_build=True):
   }
 
 
+class BadOp(Exception):
+  pass
+
+
+def common_infra(name):
+  return BadOp(f'unknown op {name}')
+
+
 def real_step(cfg, op):
   """Apply one op to the real Buildable. Returns the op's result in protocol form."""
   name = op[0]
@@ -316,15 +326,19 @@ def real_step(cfg, op):
     elif name == 'materialize':
       from fiddle._src import materialize
       materialize.materialize_defaults(cfg)
+    elif name == 'update_callable':
+      fdl.update_callable(cfg, targets.make_fn(op[1]), drop_invalid_args=op[2])
+    elif name == 'assign':
+      fdl.assign(cfg, **{k: to_py(v) for k, v in op[1]})
     elif name == 'suspend':
       fdl_history.set_tracking(False)
     elif name == 'resume':
       fdl_history.set_tracking(True)
     else:
-      raise AssertionError(name)
-  except AssertionError:
-    raise
+      raise common_infra(name)
   except Exception as e:  # the property fixes "raises", not the class
+    if isinstance(e, BadOp):
+      raise
     return 'err'
   return 'ok'
 
@@ -341,6 +355,23 @@ def run_real(case, species='function', buildable=fdl.Config, with_build=True):
       return {'init': 'err', 'steps': []}, None
     out = {'init': observe(cfg, with_build), 'steps': []}
     for op in case.get('ops', []):
+      if op[0] == 'copy_with':
+        # the copy takes over; the original must not change (checked by the caller via 'orig_same')
+        before = observe(cfg, False)
+        try:
+          new_cfg = fdl.copy_with(cfg, **{k: to_py(v) for k, v in op[1]})
+          res = 'ok'
+        except Exception:
+          new_cfg, res = None, 'err'
+        same = observe(cfg, False) == before
+        if new_cfg is None:
+          # model: edits applied before the failing one persist on the (discarded) copy only
+          out['steps'].append({'res': res, 'state': observe(cfg, with_build), 'orig_same': same,
+                               'discarded_copy': True})
+        else:
+          cfg = new_cfg
+          out['steps'].append({'res': res, 'state': observe(cfg, with_build), 'orig_same': same})
+        continue
       res = real_step(cfg, op)
       out['steps'].append({'res': res, 'state': observe(cfg, with_build)})
     return out, cfg
@@ -414,8 +445,21 @@ def gen_tag_ops(r, sig, fresh, n_ops):
       ops.append(['cleartags', key])
     elif x < 0.88:
       ops.append(['settags', key, r.sample(range(len(targets.TAGS)), r.randint(0, 3))])
-    elif x < 0.93:
+    elif x < 0.91:
       ops.append(['materialize'])
+    elif x < 0.95:
+      kvs = [[r.choice(named + ['x', 'y']) if named else 'x', fresh.val(r, sig)] for _ in range(r.randint(1, 3))]
+      seen = set()
+      kvs = [kv for kv in kvs if not (kv[0] in seen or seen.add(kv[0]))]
+      ops.append([r.choice(['assign', 'copy_with']), kvs])
+    elif x < 0.975:
+      # switch to a callable with another signature (keeps, drops or rejects stored arguments)
+      new_sig = random_sig(r, max_named=5)
+      ops.append(['update_callable', new_sig, r.random() < 0.6])
+      sig = new_sig
+      named = [p[0] for p in sig]
+      P = len([p for p in sig if p[1] in ('po', 'pk')])
+      has_vp = any(p[1] == 'vp' for p in sig)
     else:
       ops.append([r.choice(['suspend', 'resume'])])
   return ops
